@@ -171,3 +171,17 @@ def dense_of(t):
 
 def all_index_tuples(dims):
     return itertools.product(*[range(int(x)) for x in dims])
+
+
+def right_orthonormal_cores(cores):
+    """harness-side (NumPy QR) right-orthonormalisation of a vector-type core list; the first core carries the norm and is
+    normalised to 1 (independent of the library's ortho_right)"""
+    cores = [np.array(c, copy=True) for c in cores]
+    for i in range(len(cores) - 1, 0, -1):
+        r1, m, n, r2 = cores[i].shape
+        q, r = np.linalg.qr(cores[i].reshape(r1, m * n * r2).T)  # (mnr2 x k), (k x r1)
+        k = q.shape[1]
+        cores[i] = q.T.reshape(k, m, n, r2)
+        cores[i - 1] = np.tensordot(cores[i - 1], r.T, axes=([3], [0]))
+    cores[0] = cores[0] / np.linalg.norm(cores[0].reshape(-1))
+    return cores
